@@ -1031,26 +1031,110 @@ theorem C_find_key (m : Mem) (bk be bn : Nat) (es : List Econf.Entry) (gv kv : V
 
 /-- block `bk` holds an `econf_file` whose `groups` member points at block `bl`, an array of `group_count` pointers to the
     C strings `gl[i].2` (in the blocks `gl[i].1`) followed by a NULL pointer -/
-structure GlMem (m : Mem) (bk bl : Nat) (gl : List (Nat × List UInt8)) : Prop where
+structure GlMemA (m : Mem) (bk bl : Nat) (gl : List (Nat × List UInt8)) : Prop where
   kf : ∃ blk, m[bk]? = some blk ∧ blk.live = true ∧ blk.slots[13]? = some (.ptr bl 0) ∧ blk.slots[14]? = some (.int gl.length)
   arr : ∃ blk, m[bl]? = some blk ∧ blk.live = true ∧ blk.slots.length = gl.length + 1 ∧
     ∀ i (h : i < gl.length), blk.slots[i]? = some (.ptr (gl[i]).1 0) ∧ m.cstr (gl[i]).1 0 = .ok (gl[i]).2
 
+/-- block `bk` holds an `econf_file` without a group array: `groups == NULL`, `group_count == 0` (the object as `calloc` leaves it) -/
+def GlNull (m : Mem) (bk : Nat) : Prop :=
+  ∃ blk, m[bk]? = some blk ∧ blk.live = true ∧ blk.slots[13]? = some .null ∧ blk.slots[14]? = some (.int 0)
+
+/-- the group list of the `econf_file` in block `bk`: either the array in block `bl` (`GlMemA`), or – for the empty list only – no array
+    at all (`groups == NULL`).  In the second case there is no array block; `bl` is then `bk` itself by convention, so that "the blocks
+    of the object" (`bk`, `bl`) are always blocks that exist, and a frame "every block other than `bk` and `bl`" says the right thing. -/
+def GlMem (m : Mem) (bk bl : Nat) (gl : List (Nat × List UInt8)) : Prop :=
+  GlMemA m bk bl gl ∨ (gl = [] ∧ bl = bk ∧ GlNull m bk)
+
+theorem GlNull.toGlMem {m bk} (h : GlNull m bk) : GlMem m bk bk [] := Or.inr ⟨rfl, rfl, h⟩
+
+theorem GlMemA.toGlMem {m bk bl gl} (h : GlMemA m bk bl gl) : GlMem m bk bl gl := Or.inl h
+
+/-- a list with an element is held in an array -/
+theorem GlMem.toA {m bk bl gl} (h : GlMem m bk bl gl) {i : Nat} (hi : i < gl.length) : GlMemA m bk bl gl := by
+  rcases h with h | ⟨rfl, _, _⟩
+  · exact h
+  · simp at hi
+
+theorem GlMem.toA' {m bk bl gl} (h : GlMem m bk bl gl) (hne : gl ≠ []) : GlMemA m bk bl gl := by
+  rcases h with h | ⟨rfl, _, _⟩
+  · exact h
+  · exact absurd rfl hne
+
+/-- the object itself: alive, its counter is the length of the list -/
+theorem GlMem.obj {m bk bl gl} (h : GlMem m bk bl gl) :
+    ∃ blk, m[bk]? = some blk ∧ blk.live = true ∧ blk.slots[14]? = some (.int gl.length) ∧
+      (blk.slots[13]? = some (.ptr bl 0) ∨ blk.slots[13]? = some .null) := by
+  rcases h with h | ⟨rfl, _, blk, h1, h2, h3, h4⟩
+  · obtain ⟨blk, h1, h2, h3, h4⟩ := h.kf
+    exact ⟨blk, h1, h2, h4, Or.inl h3⟩
+  · exact ⟨blk, h1, h2, by simpa using h4, Or.inr h3⟩
+
+theorem GlMem.bk_lt {m bk bl gl} (h : GlMem m bk bl gl) : bk < m.length := by
+  obtain ⟨blk, h1, _⟩ := h.obj
+  exact (List.getElem?_eq_some_iff.1 h1).1
+
+/-- `bl` is a block of the memory in either case (the array, or the object itself when there is no array) -/
+theorem GlMem.bl_lt {m bk bl gl} (h : GlMem m bk bl gl) : bl < m.length := by
+  rcases h with h | ⟨_, rfl, blk, h1, _⟩
+  · obtain ⟨blk, h1, _⟩ := h.arr
+    exact (List.getElem?_eq_some_iff.1 h1).1
+  · exact (List.getElem?_eq_some_iff.1 h1).1
+
+/-- the names of the list are C strings of the memory -/
+theorem GlMem.str {m bk bl gl} (h : GlMem m bk bl gl) (i : Nat) (hi : i < gl.length) : m.cstr (gl[i]).1 0 = .ok (gl[i]).2 := by
+  obtain ⟨blk, _, _, _, h4⟩ := (h.toA hi).arr
+  exact (h4 i hi).2
+
+theorem GlMem.str_lt {m bk bl gl} (h : GlMem m bk bl gl) {x : Nat × List UInt8} (hx : x ∈ gl) : x.1 < m.length := by
+  obtain ⟨i, hi, rfl⟩ := List.getElem_of_mem hx
+  exact cstr_lt (h.str i hi)
+
+/-- the object and its array are two blocks (the array is not long enough to be the object unless it lists the object as a name) -/
+theorem GlMemA.ne {m bk bl gl} (h : GlMemA m bk bl gl) (hne : gl ≠ [] → bk ≠ bl) : bk ≠ bl := by
+  by_cases hg : gl = []
+  · subst hg
+    intro hb
+    subst hb
+    obtain ⟨kb, k1, k2, k3, k4⟩ := h.kf
+    obtain ⟨gb, g1, g2, g3, g4⟩ := h.arr
+    rw [k1] at g1; injection g1 with g1; subst g1
+    have := (List.getElem?_eq_some_iff.1 k3).1
+    simp at g3
+    omega
+  · exact hne hg
+
+/-- the group list read through the blocks it uses only -/
+theorem GlMem.mono_of {m m' : Mem} {bk bl : Nat} {gl : List (Nat × List UInt8)} (h : GlMem m bk bl gl)
+    (hk : m'[bk]? = m[bk]?) (hl : m'[bl]? = m[bl]?) (hs : ∀ b str, m.cstr b 0 = .ok str → (∃ e, e ∈ gl ∧ e.1 = b) → m'[b]? = m[b]?) : GlMem m' bk bl gl := by
+  rcases h with h | ⟨hg, hb, blk, h1, h2, h3, h4⟩
+  · obtain ⟨kblk, k1, k2, k3, k4⟩ := h.kf
+    obtain ⟨gblk, g1, g2, g3, g4⟩ := h.arr
+    refine Or.inl ⟨⟨kblk, by rw [hk]; exact k1, k2, k3, k4⟩, ⟨gblk, by rw [hl]; exact g1, g2, g3, fun i hi => ?_⟩⟩
+    obtain ⟨e1, e2⟩ := g4 i hi
+    exact ⟨e1, by rw [cstr_congr (hs _ _ e2 ⟨gl[i], List.getElem_mem hi, rfl⟩)]; exact e2⟩
+  · exact Or.inr ⟨hg, hb, blk, by rw [hk]; exact h1, h2, h3, h4⟩
+
+/-- … in particular in a memory that keeps every block of the old one -/
+theorem GlMem.grow {m m' : Mem} {bk bl : Nat} {gl : List (Nat × List UInt8)} (h : GlMem m bk bl gl)
+    (hm : ∀ b, b < m.length → m'[b]? = m[b]?) : GlMem m' bk bl gl :=
+  h.mono_of (hm bk h.bk_lt) (hm bl h.bl_lt) (fun b str hc _ => hm b (cstr_lt hc))
+
 theorem GlMem.count {m bk bl gl} (h : GlMem m bk bl gl) : m.loadSlot bk 14 = .ok (.int gl.length) := by
-  obtain ⟨blk, h1, h2, _, h4⟩ := h.kf
+  obtain ⟨blk, h1, h2, h4, _⟩ := h.obj
   simp [Mem.loadSlot, Mem.block, h1, h2, h4, bind, Except.bind]
 
-theorem GlMem.arrp {m bk bl gl} (h : GlMem m bk bl gl) : m.loadSlot bk 13 = .ok (.ptr bl 0) := by
+theorem GlMemA.arrp {m bk bl gl} (h : GlMemA m bk bl gl) : m.loadSlot bk 13 = .ok (.ptr bl 0) := by
   obtain ⟨blk, h1, h2, h3, _⟩ := h.kf
   simp [Mem.loadSlot, Mem.block, h1, h2, h3, bind, Except.bind]
 
-theorem GlMem.sidx {m bk bl gl} (h : GlMem m bk bl gl) (i : Nat) (hi : i ≤ gl.length) :
+theorem GlMemA.sidx {m bk bl gl} (h : GlMemA m bk bl gl) (i : Nat) (hi : i ≤ gl.length) :
     slotAdd m bl 0 (i : Int) = .ok (.ptr bl (i : Int)) := by
   obtain ⟨blk, h1, h2, h3, _⟩ := h.arr
   have : (0 : Int) ≤ (i : Int) ∧ (i : Int) ≤ (blk.slots.length : Int) := by rw [h3]; omega
   simp [slotAdd, Mem.block, h1, h2, this, bind, Except.bind]
 
-theorem GlMem.elem {m bk bl gl} (h : GlMem m bk bl gl) (i : Nat) (hi : i < gl.length) :
+theorem GlMemA.elem {m bk bl gl} (h : GlMemA m bk bl gl) (i : Nat) (hi : i < gl.length) :
     m.loadSlot bl (i : Int) = .ok (.ptr (gl[i]).1 0) ∧ m.cstr (gl[i]).1 0 = .ok (gl[i]).2 := by
   obtain ⟨blk, h1, h2, h3, h4⟩ := h.arr
   obtain ⟨e1, e2⟩ := h4 i hi
@@ -1138,7 +1222,6 @@ theorem getFromGroupList_exec (m : Mem) (bk bl an : Nat) (gl : List (Nat × List
     ∃ loc', exec fuel LeafFns.getFromGroupList.body { mem := m, loc := [.ptr bk 0, .ptr an 0, .undef, .undef] } =
       .ret (if hlt : firstN gl nm < gl.length then .ptr (gl[firstN gl nm]).1 0 else .null) { mem := m, loc := loc' } := by
   have hcnt := h.count
-  have harr := h.arrp
   have hnz := cstr_nz hn
   let A : Nat → St := fun i => { mem := m, loc := [.ptr bk 0, .ptr an 0, .null, .int (i : Int)] }
   have hinit1 : exec fuel (.expr (.assign (.var 2) .null .ptr)) { mem := m, loc := [.ptr bk 0, .ptr an 0, .undef, .undef] } =
@@ -1161,8 +1244,10 @@ theorem getFromGroupList_exec (m : Mem) (bk bl an : Nat) (gl : List (Nat × List
     exact stepOf_some _ _ _ _ (by simpa [A] using this)
   have hcond : ∀ i (hi : i < gl.length), testOf (some glMatch) (A i) = .ok (if (gl[i]).2 = nm then true else false, A i) := by
     intro i hi
-    obtain ⟨l1, c1⟩ := h.elem i hi
-    have hsx := h.sidx i (Nat.le_of_lt hi)
+    have hA := h.toA hi
+    have harr := hA.arrp
+    obtain ⟨l1, c1⟩ := hA.elem i hi
+    have hsx := hA.sidx i (Nat.le_of_lt hi)
     have z1 := cstr_nz c1
     by_cases e1 : (gl[i]).2 = nm
     · have q1 : cmpBytes nm nm = 0 := (cmpBytes_eq_zero _ _ hnz hnz).2 rfl
@@ -1189,8 +1274,10 @@ theorem getFromGroupList_exec (m : Mem) (bk bl an : Nat) (gl : List (Nat × List
     have hhit : exec fuel glBody (A f) = .normal Q := by
       have hc := hcond f hlt
       simp only [hat, if_true] at hc
-      obtain ⟨l1, c1⟩ := h.elem f hlt
-      have hsx := h.sidx f (Nat.le_of_lt hlt)
+      have hA := h.toA hlt
+      have harr := hA.arrp
+      obtain ⟨l1, c1⟩ := hA.elem f hlt
+      have hsx := hA.sidx f (Nat.le_of_lt hlt)
       have hw : wrapTo .i32 (gl.length : Int) = gl.length := wrapTo_i32 _ (by omega) (by omega)
       unfold glBody glTake; rw [exec_ite_true hc]
       simp [exec, evalE, evalL, readPlace, writePlace, harr, hsx, l1, hcnt, convert, hw, bind, Except.bind, Except.map, A, Q]
@@ -1336,28 +1423,27 @@ theorem setGroupList_found (m : Mem) (bk bl an : Nat) (gl : List (Nat × List UI
     rw [exec_ite_true ht]; simp [exec, evalE, evalL, readPlace, bind, Except.bind]
   rw [exec_seq_ret hret]
 
-/-- `setGroupList`, a new name: the counter goes up, the array is reallocated with one more element, the NULL terminator
-    and a fresh copy of the name are written; the caller's object now lists the old names and the new one -/
+/-- `setGroupList`, a new name: the counter goes up, the array is reallocated with one more element (allocated, if the object had
+    none: `realloc(NULL, …)`), the NULL terminator and a fresh copy of the name are written; the caller's object now lists the old
+    names and the new one, in an array -/
 theorem setGroupList_new (m : Mem) (bk bl an : Nat) (gl : List (Nat × List UInt8)) (nm : List UInt8) (h : GlMem m bk bl gl)
-    (hn : m.cstr an 0 = .ok nm) (hkw : ∀ blk, m[bk]? = some blk → blk.writable = true) (hne : bk ≠ bl)
+    (hn : m.cstr an 0 = .ok nm) (hkw : ∀ blk, m[bk]? = some blk → blk.writable = true) (hne : gl ≠ [] → bk ≠ bl)
     (hd : ∀ e, e ∈ gl → e.1 ≠ bk ∧ e.1 ≠ bl) (han : an ≠ bk ∧ an ≠ bl)
     (hsmall : (gl.length : Int) + 2 < 2147483648) (fuel : Nat) (hf : gl.length + 1 < fuel)
     (hnew : ¬ firstN gl nm < gl.length) :
     ∃ m' loc', exec fuel LeafFns.setGroupList.body { mem := m, loc := [.ptr bk 0, .ptr an 0, .undef] } =
         .ret (.ptr (m.length + 1) 0) { mem := m', loc := loc' } ∧
-      GlMem m' bk m.length (gl ++ [(m.length + 1, nm)]) ∧ m'.length = m.length + 2 ∧
+      GlMemA m' bk m.length (gl ++ [(m.length + 1, nm)]) ∧ m'.length = m.length + 2 ∧
       (∀ b, b < m.length → b ≠ bk → b ≠ bl → m'[b]? = m[b]?) ∧
       (∀ kb kb', m[bk]? = some kb → m'[bk]? = some kb' → kb'.live = true ∧ kb'.writable = true ∧ kb'.cells = kb.cells ∧ kb'.slots.length = kb.slots.length ∧
         ∀ i, i ≠ 13 → i ≠ 14 → kb'.slots[i]? = kb.slots[i]?) := by
-  obtain ⟨kblk, k1, k2, k3, k4⟩ := h.kf
-  obtain ⟨gblk, g1, g2, g3, g4⟩ := h.arr
+  obtain ⟨kblk, k1, k2, k4, k3'⟩ := h.obj
+  have hstr := h.str
   have kw := hkw kblk k1
   have hbk : bk < m.length := (List.getElem?_eq_some_iff.1 k1).1
-  have hbl : bl < m.length := (List.getElem?_eq_some_iff.1 g1).1
-  have h13 : 13 < kblk.slots.length := by
-    rcases List.getElem?_eq_some_iff.1 k3 with ⟨hlt, _⟩; exact hlt
   have h14 : 14 < kblk.slots.length := by
     rcases List.getElem?_eq_some_iff.1 k4 with ⟨hlt, _⟩; exact hlt
+  have h13 : 13 < kblk.slots.length := by omega
   -- the look-up finds nothing
   obtain ⟨loc1, hg⟩ := getFromGroupList_exec m bk bl an gl nm h hn (by omega) fuel hf
   simp only [hnew, dite_false] at hg
@@ -1384,27 +1470,56 @@ theorem setGroupList_new (m : Mem) (bk bl an : Nat) (gl : List (Nat × List UInt
       (by simp [evalE, evalL, readPlace, bind, Except.bind]) (by simpa using hcnt) (by simp; omega) (by simp; omega) hst
     simp only [exec, hev]
   rw [exec_seq_normal hS2]
-  -- the array with one more element; the old one is released
+  -- the array with one more element; the old one, if there was one, is released
   have hm1k : m1[bk]? = some { kblk with slots := ks1 } := by simp [m1, hbk]
-  have hm1l : m1[bl]? = some gblk := by simp only [m1]; rw [set_other (Ne.symm hne)]; exact g1
-  have hks1_13 : ks1[13]? = some (.ptr bl 0) := by simp [ks1, List.getElem?_set, k3]
   have hks1_14 : ks1[14]? = some (.int ((n : Int) + 1)) := by simp [ks1, List.getElem?_set, h14]
-  have hl13 : m1.loadSlot bk 13 = .ok (.ptr bl 0) := by
-    simpa using loadSlot_of (i := 13) hm1k k2 hks1_13 (by simp)
   have hl14 : m1.loadSlot bk 14 = .ok (.int ((n : Int) + 1)) := by
     simpa using loadSlot_of (i := 14) hm1k k2 hks1_14 (by simp)
   let L := m.length
-  let gs2 : List Val := gblk.slots ++ [.undef]
-  let m2 : Mem := m1.set bl { gblk with live := false } ++ [{ cells := [], slots := gs2 }]
-  have hre : builtin "realloc_words" [.ptr bl 0, .int ((n : Int) + 2)] m1 = .ok (.ptr L 0, m2) := by
-    have := realloc_words_spec m1 bl gblk (n + 2) hm1l g2
-    have e1 : gblk.slots.take (n + 2) = gblk.slots := List.take_of_length_le (by omega)
-    have e2 : (n + 2) - gblk.slots.length = 1 := by omega
-    have e3 : m1.length = L := by simp [m1, L]
-    simp only [e1, e2, List.replicate_one, e3] at this
-    have e4 : (((n + 2 : Nat)) : Int) = (n : Int) + 2 := by omega
-    rw [e4] at this
-    exact this
+  have hm1len : m1.length = L := by simp [m1, L]
+  obtain ⟨v13, gs2, m2, hk13, hv13, hre, hLlen, hm2k, hm2L, hgs2len, hgs2, hm2fr⟩ : ∃ (v13 : Val) (gs2 : List Val) (m2 : Mem),
+      kblk.slots[13]? = some v13 ∧ v13 ≠ .undef ∧
+      builtin "realloc_words" [v13, .int ((n : Int) + 2)] m1 = .ok (.ptr L 0, m2) ∧ m2.length = L + 1 ∧
+      m2[bk]? = some { kblk with slots := ks1 } ∧ m2[L]? = some ({ cells := [], slots := gs2 } : Block) ∧ gs2.length = n + 2 ∧
+      (∀ i (hi : i < n), gs2[i]? = some (.ptr (gl[i]).1 0)) ∧ (∀ b, b < L → b ≠ bk → b ≠ bl → m2[b]? = m[b]?) := by
+    have h' := h
+    rcases h' with hA | ⟨hg, hb, nblk, n1, n2, n3, n4⟩
+    · -- there is an array: it moves
+      have hne' : bk ≠ bl := hA.ne hne
+      obtain ⟨kblk', k1', _, k3, _⟩ := hA.kf
+      rw [k1] at k1'; injection k1' with k1'; subst k1'
+      obtain ⟨gblk, g1, g2, g3, g4⟩ := hA.arr
+      have hm1l : m1[bl]? = some gblk := by simp only [m1]; rw [set_other (Ne.symm hne')]; exact g1
+      refine ⟨.ptr bl 0, gblk.slots ++ [.undef], m1.set bl { gblk with live := false } ++ [{ cells := [], slots := gblk.slots ++ [.undef] }],
+        k3, by simp, ?_, by simp [m1, L], ?_, ?_, by simp [g3, n], fun i hi => ?_, fun b hb hbk' hbl' => ?_⟩
+      · have := realloc_words_spec m1 bl gblk (n + 2) hm1l g2
+        have e1 : gblk.slots.take (n + 2) = gblk.slots := List.take_of_length_le (by omega)
+        have e2 : (n + 2) - gblk.slots.length = 1 := by omega
+        simp only [e1, e2, List.replicate_one, hm1len] at this
+        have e4 : (((n + 2 : Nat)) : Int) = (n : Int) + 2 := by omega
+        rw [e4] at this
+        exact this
+      · rw [List.getElem?_append_left (by simp [m1]; exact hbk), set_other hne']; exact hm1k
+      · rw [List.getElem?_append_right (by simp [m1, L])]
+        simp [m1, L]
+      · rw [List.getElem?_append_left (by rw [g3]; omega)]
+        exact (g4 i hi).1
+      · rw [List.getElem?_append_left (by simp [m1]; exact hb), set_other hbl']
+        simp only [m1]; rw [set_other hbk']
+    · -- `groups == NULL`: `realloc` makes the first array
+      rw [k1] at n1; injection n1 with n1; subst n1
+      have hn0 : n = 0 := by simp [n, hg]
+      refine ⟨.null, [.undef, .undef], m1 ++ [{ cells := [], slots := [.undef, .undef] }], n3, by simp, ?_, by simp [m1, L], ?_, ?_, by simp [hn0],
+        fun i hi => by omega, fun b hb hbk' _ => ?_⟩
+      · simp [builtin, Mem.allocWords, hn0, hm1len, List.replicate]
+      · rw [List.getElem?_append_left (by simp [m1]; exact hbk)]; exact hm1k
+      · rw [List.getElem?_append_right (by simp [m1, L])]
+        simp [m1, L]
+      · rw [List.getElem?_append_left (by simp [m1]; exact hb)]
+        simp only [m1]; rw [set_other hbk']
+  have hks1_13 : ks1[13]? = some v13 := by simp [ks1, List.getElem?_set, hk13]
+  have hl13 : m1.loadSlot bk 13 = .ok v13 := by
+    simpa using loadSlot_of (i := 13) hm1k k2 hks1_13 hv13
   let ks3 := ks1.set 13 (.ptr L 0)
   let m3 : Mem := m2.set bk { kblk with slots := ks3 }
   have hS3 : exec fuel (.expr (.assign (.slot (.load (.var 0) .ptr) 13) sgRealloc .ptr)) { mem := m1, loc := [.ptr bk 0, .ptr an 0, .null] } =
@@ -1416,19 +1531,12 @@ theorem setGroupList_new (m : Mem) (bk bl an : Nat) (gl : List (Nat × List UInt
     have hw64 : wrapTo .u64 ((n : Int) + 1 + 1) = (n : Int) + 2 := by rw [wrapTo_u64_small _ (by omega) (by omega)]; omega
     have hw64' : wrapTo .u64 (((n : Int) + 2) * 1) = (n : Int) + 2 := by rw [Int.mul_one, wrapTo_u64_small _ (by omega) (by omega)]
     have hw64'' : wrapTo .u64 ((n : Int) + 2) = (n : Int) + 2 := wrapTo_u64_small _ (by omega) (by omega)
-    have hm2k : m2[bk]? = some { kblk with slots := ks1 } := by
-      simp only [m2]
-      rw [List.getElem?_append_left (by simp [m1]; exact hbk), set_other hne]; exact hm1k
     have hst : m2.storeSlot bk 13 (.ptr L 0) = .ok m3 := by
       simpa [m3, ks3] using storeSlot_of (m := m2) (b := bk) (i := 13) (.ptr L 0) hm2k k2 kw (by simp [ks1]; exact h13)
     simp [exec, evalE, evalL, evalArgs, readPlace, writePlace, sgRealloc, hl13, hc1, binop, cmpInt, arith_u64, convert, hw64, hw64', hw64'', hre, hst,
       bind, Except.bind, Except.map]
   rw [exec_seq_normal hS3]
   -- the new array is there: the else branch
-  have hLlen : m2.length = L + 1 := by simp [m2, m1, L]
-  have hm2k : m2[bk]? = some { kblk with slots := ks1 } := by
-    simp only [m2]
-    rw [List.getElem?_append_left (by simp [m1]; exact hbk), set_other hne]; exact hm1k
   have hm3k : m3[bk]? = some { kblk with slots := ks3 } := by
     have : bk < m2.length := by omega
     simp [m3, this]
@@ -1436,14 +1544,11 @@ theorem setGroupList_new (m : Mem) (bk bl an : Nat) (gl : List (Nat × List UInt
   have hm3L : m3[L]? = some { cells := [], slots := gs2 } := by
     simp only [m3]
     rw [set_other (Ne.symm hbkL)]
-    simp only [m2]
-    rw [List.getElem?_append_right (by simp [m1, L])]
-    simp [m1, L]
+    exact hm2L
   have hks3_13 : ks3[13]? = some (.ptr L 0) := by simp [ks3, ks1, List.getElem?_set, h13]
   have hks3_14 : ks3[14]? = some (.int ((n : Int) + 1)) := by simp [ks3, List.getElem?_set, hks1_14]
   have hl13' : m3.loadSlot bk 13 = .ok (.ptr L 0) := by simpa using loadSlot_of (i := 13) hm3k k2 hks3_13 (by simp)
   have hl14' : m3.loadSlot bk 14 = .ok (.int ((n : Int) + 1)) := by simpa using loadSlot_of (i := 14) hm3k k2 hks3_14 (by simp)
-  have hgs2len : gs2.length = n + 2 := by simp [gs2, g3, n]
   have hcondF : testOf (some (.bin .eq (.load (.slot (.load (.var 0) .ptr) 13) .ptr) .null .i32)) { mem := m3, loc := [.ptr bk 0, .ptr an 0, .null] } =
       .ok (false, { mem := m3, loc := [.ptr bk 0, .ptr an 0, .null] }) := by
     simp [testOf, evalE, evalL, readPlace, hl13', binop, boolVal, truth, bind, Except.bind]
@@ -1481,8 +1586,7 @@ theorem setGroupList_new (m : Mem) (bk bl an : Nat) (gl : List (Nat × List UInt
     have e1 : an ≠ L := by omega
     simp only [m4]; rw [set_other e1]
     simp only [m3]; rw [set_other han.1]
-    simp only [m2]; rw [List.getElem?_append_left (by simp [m1]; exact hanlt), set_other han.2]
-    simp only [m1]; rw [set_other han.1]
+    exact hm2fr an hanlt han.1 han.2
   have hn4 : m4.cstr an 0 = .ok nm := by rw [cstr_congr hm4an]; exact hn
   obtain ⟨m5, hsd, hm5b, hm5len, hm5fr⟩ := strdup_spec m4 an 0 nm hn4
   rw [hm4len] at hsd hm5b hm5len hm5fr
@@ -1529,8 +1633,7 @@ theorem setGroupList_new (m : Mem) (bk bl an : Nat) (gl : List (Nat × List UInt
     simp only [m6]; rw [set_other e1, hm5fr b (by omega)]
     simp only [m4]; rw [set_other e1]
     simp only [m3]; rw [set_other hbk']
-    simp only [m2]; rw [List.getElem?_append_left (by simp [m1]; exact hb), set_other hbl']
-    simp only [m1]; rw [set_other hbk']
+    exact hm2fr b hb hbk' hbl'
   have hm6len : m6.length = L + 2 := by simp [m6, hm5len]
   have hm6new : m6.cstr (L + 1) 0 = .ok nm := by
     have hz := cstr_nz hn
@@ -1543,14 +1646,14 @@ theorem setGroupList_new (m : Mem) (bk bl an : Nat) (gl : List (Nat × List UInt
     intro i hi
     have hi' : i < n + 1 := by simpa [n] using hi
     by_cases hin : i < n
-    · obtain ⟨e1, e2⟩ := g4 i hin
+    · have e2 := hstr i hin
       have hmem := hd (gl[i]) (List.getElem_mem hin)
       have hgi : gs6[i]? = some (.ptr (gl[i]).1 0) := by
         have a1 : i ≠ n := by omega
         have a2 : i ≠ n + 1 := by omega
-        simp only [gs6, gs4, gs2]
-        rw [List.getElem?_set_ne (Ne.symm a1), List.getElem?_set_ne (Ne.symm a2), List.getElem?_append_left (by rw [g3]; omega)]
-        exact e1
+        simp only [gs6, gs4]
+        rw [List.getElem?_set_ne (Ne.symm a1), List.getElem?_set_ne (Ne.symm a2)]
+        exact hgs2 i hin
       have hlt := cstr_lt e2
       have hc : m6.cstr (gl[i]).1 0 = .ok (gl[i]).2 := by rw [cstr_congr (hfr6 _ hlt hmem.1 hmem.2)]; exact e2
       simp only [List.getElem_append_left hin]
@@ -1590,7 +1693,7 @@ theorem firstN_mem (gl : List (Nat × List UInt8)) (nm : List UInt8) :
     `addGroup` of the old one – the name is appended exactly when it was not there, first-appearance order is kept – and the
     pointer returned is the list's element for that name. -/
 theorem C_setGroupList (m : Mem) (bk bl an : Nat) (gl : List (Nat × List UInt8)) (nm : List UInt8) (h : GlMem m bk bl gl)
-    (hn : m.cstr an 0 = .ok nm) (hkw : ∀ blk, m[bk]? = some blk → blk.writable = true) (hne : bk ≠ bl)
+    (hn : m.cstr an 0 = .ok nm) (hkw : ∀ blk, m[bk]? = some blk → blk.writable = true) (hne : gl ≠ [] → bk ≠ bl)
     (hd : ∀ e, e ∈ gl → e.1 ≠ bk ∧ e.1 ≠ bl) (han : an ≠ bk ∧ an ≠ bl)
     (hsmall : (gl.length : Int) + 2 < 2147483648) (fuel : Nat) (hf : gl.length + 1 < fuel) :
     ∃ m' loc' b' bl' gl', exec fuel LeafFns.setGroupList.body { mem := m, loc := [.ptr bk 0, .ptr an 0, .undef] } =
@@ -1610,28 +1713,45 @@ theorem C_setGroupList (m : Mem) (bk bl an : Nat) (gl : List (Nat × List UInt8)
   · obtain ⟨m', loc', he, hg, _, _, _⟩ := setGroupList_new m bk bl an gl nm h hn hkw hne hd han hsmall fuel hf hlt
     have hmem : ¬ nm ∈ gl.map (·.2) := fun hh => hlt (hc.2 hh)
     have hcont : (gl.map (·.2)).contains nm = false := by simpa using hmem
-    exact ⟨m', loc', _, _, _, he, hg, by simp only [Econf.addGroup, hcont, Bool.false_eq_true, if_false, List.map_append, List.map_cons, List.map_nil], by simp⟩
+    exact ⟨m', loc', _, _, _, he, hg.toGlMem, by simp only [Econf.addGroup, hcont, Bool.false_eq_true, if_false, List.map_append, List.map_cons, List.map_nil], by simp⟩
+
+/-- what the steps of the merge keep of the destination object: it stays writable, and every member other than `groups` (word 13) and
+    `group_count` (word 14) is as in `kb0` -/
+def KfKeep (kb0 blk : Block) : Prop :=
+  blk.writable = true ∧ blk.cells = kb0.cells ∧ blk.slots.length = kb0.slots.length ∧ ∀ i, i ≠ 13 → i ≠ 14 → blk.slots[i]? = kb0.slots[i]?
+
+theorem KfKeep.refl {kb : Block} (h : kb.writable = true) : KfKeep kb kb := ⟨h, rfl, rfl, fun _ _ _ => rfl⟩
+
+theorem KfKeep.trans {a b c : Block} (h1 : KfKeep a b) (h2 : KfKeep b c) : KfKeep a c :=
+  ⟨h2.1, h2.2.1.trans h1.2.1, h2.2.2.1.trans h1.2.2.1, fun i h13 h14 => (h2.2.2.2 i h13 h14).trans (h1.2.2.2 i h13 h14)⟩
+
+/-- the object is kept over a step that leaves its block alone -/
+theorem KfKeep.same {m m' : Mem} {bk : Nat} (hw : ∀ blk, m[bk]? = some blk → blk.writable = true) (he : m'[bk]? = m[bk]?) :
+    ∀ kb blk, m[bk]? = some kb → m'[bk]? = some blk → KfKeep kb blk := by
+  intro kb blk hk hb
+  rw [he, hk] at hb; injection hb with hb; subst hb
+  exact KfKeep.refl (hw kb hk)
 
 /-! ## `cpy_file_entry` (lib/helpers.c) -/
 
 /-- `setGroupList` as its callers see it: the object's group list becomes `addGroup`, the result is the list's element for
     the name, every block of the old memory other than the struct and the old array is as before, nothing shrinks -/
 theorem setGroupList_spec (m : Mem) (bk bl an : Nat) (gl : List (Nat × List UInt8)) (nm : List UInt8) (h : GlMem m bk bl gl)
-    (hn : m.cstr an 0 = .ok nm) (hkw : ∀ blk, m[bk]? = some blk → blk.writable = true) (hne : bk ≠ bl)
+    (hn : m.cstr an 0 = .ok nm) (hkw : ∀ blk, m[bk]? = some blk → blk.writable = true) (hne : gl ≠ [] → bk ≠ bl)
     (hd : ∀ e, e ∈ gl → e.1 ≠ bk ∧ e.1 ≠ bl) (han : an ≠ bk ∧ an ≠ bl)
     (hsmall : (gl.length : Int) + 2 < 2147483648) (fuel : Nat) (hf : gl.length + 1 < fuel) :
     ∃ m' loc' b' bl' gl', exec fuel LeafFns.setGroupList.body { mem := m, loc := [.ptr bk 0, .ptr an 0, .undef] } =
         .ret (.ptr b' 0) { mem := m', loc := loc' } ∧
       GlMem m' bk bl' gl' ∧ gl'.map (·.2) = Econf.addGroup (gl.map (·.2)) nm ∧ (b', nm) ∈ gl' ∧
       m.length ≤ m'.length ∧ (∀ b, b < m.length → b ≠ bk → b ≠ bl → m'[b]? = m[b]?) ∧
-      (∀ blk, m'[bk]? = some blk → blk.writable = true) ∧ bk ≠ bl' ∧ (∀ e, e ∈ gl' → e.1 ≠ bk ∧ e.1 ≠ bl') ∧ gl'.length ≤ gl.length + 1 ∧
+      (∀ kb blk, m[bk]? = some kb → m'[bk]? = some blk → KfKeep kb blk) ∧ (gl' ≠ [] → bk ≠ bl') ∧ (∀ e, e ∈ gl' → e.1 ≠ bk ∧ e.1 ≠ bl') ∧ gl'.length ≤ gl.length + 1 ∧
       (bl' = bl ∨ m.length ≤ bl') := by
   have hc := firstN_mem gl nm
   by_cases hlt : firstN gl nm < gl.length
   · obtain ⟨loc', he⟩ := setGroupList_found m bk bl an gl nm h hn (by omega) fuel hf hlt
     have hmem : nm ∈ gl.map (·.2) := hc.1 hlt
     have hcont : (gl.map (·.2)).contains nm = true := by simpa using hmem
-    refine ⟨m, loc', _, bl, gl, he, h, by simp only [Econf.addGroup, hcont, if_true], ?_, Nat.le_refl _, fun _ _ _ _ => rfl, hkw, hne, hd, by omega, Or.inl rfl⟩
+    refine ⟨m, loc', _, bl, gl, he, h, by simp only [Econf.addGroup, hcont, if_true], ?_, Nat.le_refl _, fun _ _ _ _ => rfl, KfKeep.same hkw rfl, hne, hd, by omega, Or.inl rfl⟩
     have hat := firstN_at gl nm hlt
     have hx : gl[firstN gl nm] = ((gl[firstN gl nm]).1, nm) := Prod.ext rfl hat
     have := List.getElem_mem hlt
@@ -1640,23 +1760,17 @@ theorem setGroupList_spec (m : Mem) (bk bl an : Nat) (gl : List (Nat × List UIn
   · obtain ⟨m', loc', he, hg, hlen, hfr, hkf⟩ := setGroupList_new m bk bl an gl nm h hn hkw hne hd han hsmall fuel hf hlt
     have hmem : ¬ nm ∈ gl.map (·.2) := fun hh => hlt (hc.2 hh)
     have hcont : (gl.map (·.2)).contains nm = false := by simpa using hmem
-    obtain ⟨kblk, k1, _⟩ := h.kf
-    have hbk : bk < m.length := (List.getElem?_eq_some_iff.1 k1).1
-    obtain ⟨gblk, g1, _⟩ := h.arr
-    have hbl : bl < m.length := (List.getElem?_eq_some_iff.1 g1).1
-    refine ⟨m', loc', _, _, _, he, hg, by simp only [Econf.addGroup, hcont, Bool.false_eq_true, if_false, List.map_append, List.map_cons, List.map_nil], by simp,
-      by omega, hfr, ?_, by omega, ?_, by simp, Or.inr (Nat.le_refl _)⟩
-    · intro blk hb
-      obtain ⟨kb', hkb'⟩ : ∃ kb', m'[bk]? = some kb' := ⟨blk, hb⟩
-      have := (hkf kblk blk k1 hb).2.1
-      exact this
+    obtain ⟨kblk, k1, _⟩ := h.obj
+    have hbk : bk < m.length := h.bk_lt
+    have hbl : bl < m.length := h.bl_lt
+    refine ⟨m', loc', _, _, _, he, hg.toGlMem, by simp only [Econf.addGroup, hcont, Bool.false_eq_true, if_false, List.map_append, List.map_cons, List.map_nil], by simp,
+      by omega, hfr, ?_, fun _ => by omega, ?_, by simp, Or.inr (Nat.le_refl _)⟩
+    · intro kb blk hk hb
+      exact (hkf kb blk hk hb).2
     · intro e he'
       rcases List.mem_append.1 he' with h1 | h1
       · have := hd e h1
-        have hlt' : e.1 < m.length := by
-          obtain ⟨i, hi, rfl⟩ := List.getElem_of_mem h1
-          obtain ⟨ablk, a1, a2, a3, a4⟩ := h.arr
-          exact cstr_lt (a4 i hi).2
+        have hlt' : e.1 < m.length := h.str_lt h1
         exact ⟨this.1, by omega⟩
       · simp at h1
         subst h1
@@ -1770,15 +1884,8 @@ theorem EntMem.mono {m m' : Mem} {bs os : Nat} {e : Econf.Entry} {avoid : List N
     by rw [loadSlot_congr hs]; exact h.line⟩
 
 theorem GlMem.mono {m m' : Mem} {bk bl : Nat} {gl : List (Nat × List UInt8)} (h : GlMem m bk bl gl) (L : Nat)
-    (hm : ∀ b, b < m.length → b ≠ L → m'[b]? = m[b]?) (h1 : bk ≠ L) (h2 : bl ≠ L) (h3 : ∀ e, e ∈ gl → e.1 ≠ L) : GlMem m' bk bl gl := by
-  obtain ⟨kblk, k1, k2, k3, k4⟩ := h.kf
-  obtain ⟨gblk, g1, g2, g3, g4⟩ := h.arr
-  have lk : bk < m.length := (List.getElem?_eq_some_iff.1 k1).1
-  have la : bl < m.length := (List.getElem?_eq_some_iff.1 g1).1
-  refine ⟨⟨kblk, by rw [hm bk lk h1]; exact k1, k2, k3, k4⟩, ⟨gblk, by rw [hm bl la h2]; exact g1, g2, g3, ?_⟩⟩
-  intro i hi
-  obtain ⟨e1, e2⟩ := g4 i hi
-  exact ⟨e1, by rw [cstr_congr (hm _ (cstr_lt e2) (h3 _ (List.getElem_mem hi)))]; exact e2⟩
+    (hm : ∀ b, b < m.length → b ≠ L → m'[b]? = m[b]?) (h1 : bk ≠ L) (h2 : bl ≠ L) (h3 : ∀ e, e ∈ gl → e.1 ≠ L) : GlMem m' bk bl gl :=
+  h.mono_of (hm bk h.bk_lt h1) (hm bl h.bl_lt h2) (fun b str hc ⟨e, he, hb⟩ => hm b (cstr_lt hc) (hb ▸ h3 e he))
 
 /-- call of a translated function whose result is stored through an lvalue -/
 theorem exec_inl_lval {fuel : Nat} {args : Args} {nl : Nat} {body : Stmt} {st st1 st' st2 st3 : St} {vs : List Val} {v : Val} {dty : Ty}
@@ -1809,7 +1916,7 @@ theorem cpy_file_entry_shape : LeafFns.cpy_file_entry.body =
     group pointer taken from the destination's group list, which is `addGroup` of the old one; the source is untouched. -/
 theorem cpy_file_entry_exec (m : Mem) (bk bl bs os : Nat) (gl : List (Nat × List UInt8)) (e : Econf.Entry)
     (hG : GlMem m bk bl gl) (hE : EntMem m bs os e [bk, bl])
-    (hkw : ∀ blk, m[bk]? = some blk → blk.writable = true) (hne : bk ≠ bl) (hd : ∀ x, x ∈ gl → x.1 ≠ bk ∧ x.1 ≠ bl)
+    (hkw : ∀ blk, m[bk]? = some blk → blk.writable = true) (hne : gl ≠ [] → bk ≠ bl) (hd : ∀ x, x ∈ gl → x.1 ≠ bk ∧ x.1 ≠ bl)
     (hsmall : (gl.length : Int) + 2 < 2147483648) (hline : (e.line : Int) < 18446744073709551616) (fuel : Nat) (hf : gl.length + 1 < fuel) :
     ∃ m' loc' bl' gl', exec fuel LeafFns.cpy_file_entry.body { mem := m, loc := [.ptr bk 0, .ptr bs (os : Int), .undef] } =
         .ret (.ptr m.length 0) { mem := m', loc := loc' } ∧
@@ -1818,7 +1925,7 @@ theorem cpy_file_entry_exec (m : Mem) (bk bl bs os : Nat) (gl : List (Nat × Lis
       GlMem m' bk bl' gl' ∧ gl'.map (·.2) = Econf.addGroup (gl.map (·.2)) e.group ∧
       (∃ bg, m'.loadSlot m.length 0 = .ok (.ptr bg 0) ∧ (bg, e.group) ∈ gl') ∧
       (∀ b, b < m.length → b ≠ bk → b ≠ bl → m'[b]? = m[b]?) ∧ (bl' = bl ∨ m.length ≤ bl') ∧
-      (∀ blk, m'[bk]? = some blk → blk.writable = true) ∧ bk ≠ bl' ∧ (∀ x, x ∈ gl' → x.1 ≠ bk ∧ x.1 ≠ bl') ∧ gl'.length ≤ gl.length + 1 ∧
+      (∀ kb blk, m[bk]? = some kb → m'[bk]? = some blk → KfKeep kb blk) ∧ (gl' ≠ [] → bk ≠ bl') ∧ (∀ x, x ∈ gl' → x.1 ≠ bk ∧ x.1 ≠ bl') ∧ gl'.length ≤ gl.length + 1 ∧
       -- the value of the copy has a block of its own, made here: no other member of the copy and no string of the group list lives there
       (∀ bv, m'.loadSlot m.length 2 = .ok (.ptr bv 0) → m.length < bv ∧ m'.loadSlot m.length 0 ≠ .ok (.ptr bv 0) ∧
         m'.loadSlot m.length 1 ≠ .ok (.ptr bv 0) ∧ m'.loadSlot m.length 3 ≠ .ok (.ptr bv 0) ∧ m'.loadSlot m.length 4 ≠ .ok (.ptr bv 0) ∧
@@ -1833,15 +1940,9 @@ theorem cpy_file_entry_exec (m : Mem) (bk bl bs os : Nat) (gl : List (Nat × Lis
   have hm0fr : ∀ b, b < m.length → m0[b]? = m[b]? := fun b hb => by simp [m0, List.getElem?_append_left hb]
   have hm0L : m0[L]? = some { cells := [], slots := sl0 } := by simp [m0, L]
   -- the object and the source entry in the grown memory
-  obtain ⟨kblk, k1, _⟩ := hG.kf
-  obtain ⟨gblk, g1, _⟩ := hG.arr
-  have hbk : bk < L := (List.getElem?_eq_some_iff.1 k1).1
-  have hbl : bl < L := (List.getElem?_eq_some_iff.1 g1).1
-  have hG0 : GlMem m0 bk bl gl := hG.mono L (fun b hb _ => hm0fr b hb) (by omega) (by omega) (fun x hx => by
-    obtain ⟨i, hi, rfl⟩ := List.getElem_of_mem hx
-    obtain ⟨ablk, a1, a2, a3, a4⟩ := hG.arr
-    have := cstr_lt (a4 i hi).2
-    omega)
+  have hbk : bk < L := hG.bk_lt
+  have hbl : bl < L := hG.bl_lt
+  have hG0 : GlMem m0 bk bl gl := hG.grow hm0fr
   have hE0 : EntMem m0 bs os e [bk, bl] := hE.mono (fun b hb _ => hm0fr b hb)
   obtain ⟨bg, eg1, eg2, eg3⟩ := hE0.grp
   have hbgne : bg ≠ bk ∧ bg ≠ bl := by simpa using eg3
@@ -1949,7 +2050,7 @@ theorem cpy_file_entry_exec (m : Mem) (bk bl bs os : Nat) (gl : List (Nat × Lis
     intro mm sl str hmm hc
     simp [Mem.cstr, Mem.block, hmm, cstrFrom, bind, Except.bind] at hc
   obtain ⟨ig, hig, hgi⟩ := List.getElem_of_mem hmem1
-  obtain ⟨ablk, a1, a2, a3, a4⟩ := hG1.arr
+  obtain ⟨ablk, a1, a2, a3, a4⟩ := (hG1.toA hig).arr
   have hb'str : m1.cstr b' 0 = .ok e.group := by
     have := (a4 ig hig).2
     rw [hgi] at this; exact this
@@ -1987,9 +2088,7 @@ theorem cpy_file_entry_exec (m : Mem) (bk bl bs os : Nat) (gl : List (Nat × Lis
   have hg7 : mm7.loadSlot L 0 = .ok (.ptr b' 0) := by simpa using ld 0 _ (by rw [hsl7]; rfl) (by simp)
   refine ⟨mm7, [.ptr bk 0, .ptr bs (os : Int), .ptr L 0], bl', gl', by simp [exec, evalE, evalL, readPlace, bind, Except.bind, L], ?_, ?_,
     ⟨sl7, hL7, by rw [hsl7]; rfl⟩, hG7, hnames, ⟨b', hg7, hmem1⟩, hag7, ?_, ?_, hne1, hd1, hgl'len, ?_⟩
-  · have hbl'lt : bl' < m1.length := by
-      obtain ⟨gb, q1, _⟩ := hG1.arr
-      exact (List.getElem?_eq_some_iff.1 q1).1
+  · have hbl'lt : bl' < m1.length := hG1.bl_lt
     have fresh : ∀ b, m1.length ≤ b → b ∉ [bk, bl'] := by
       intro b hb hmem
       simp at hmem
@@ -2007,10 +2106,10 @@ theorem cpy_file_entry_exec (m : Mem) (bk bl bs os : Nat) (gl : List (Nat × Lis
   · rcases hblor with h1 | h1
     · exact Or.inl h1
     · exact Or.inr (by omega)
-  · intro blk hb
+  · intro kb blk hk hb
     have hbk1 : bk < m1.length := by omega
     rw [keep1 bk hbk1 (by omega)] at hb
-    exact hkw1 blk hb
+    exact hkw1 kb blk (by rw [hm0fr bk hbk]; exact hk) hb
   · -- the value's block is the one `strdup` made for it
     intro bv hbv
     have h2 : mm7.loadSlot L 2 = .ok v2' := by simpa using ld 2 _ (by rw [hsl7]; rfl) n2
@@ -2020,9 +2119,7 @@ theorem cpy_file_entry_exec (m : Mem) (bk bl bs os : Nat) (gl : List (Nat × Lis
     have hge := hnew3 bv hv2
     have hb'lt : b' < m1.length := cstr_lt hb'str
     have hbvlt3 : bv < mm3.length := hval3.lt bv hv2
-    have hbl'lt2 : bl' < m1.length := by
-      obtain ⟨gb, q1, _⟩ := hG1.arr
-      exact (List.getElem?_eq_some_iff.1 q1).1
+    have hbl'lt2 : bl' < m1.length := hG1.bl_lt
     refine ⟨by omega, ?_, ?_, ?_, ?_, by omega, ?_⟩
     · rw [hg7]; intro hh; injection hh with hh; injection hh with hh; omega
     · have h1 : mm7.loadSlot L 1 = .ok (.ptr m1'.length 0) := by simpa using ld 1 _ (by rw [hsl7]; rfl) (by simp)
@@ -2070,7 +2167,7 @@ theorem exec_copy_words (fuel : Nat) (D S : Expr) (st st2 st3 : St) (d s : Nat) 
 theorem fe_append_exec (m : Mem) (bk bl cell fa bs os : Nat) (gl : List (Nat × List UInt8)) (e : Econf.Entry)
     (loc loc2 : List Val) (srcE idxE : Expr) (t a cap : Nat)
     (hG : GlMem m bk bl gl) (hE : EntMem m bs os e [bk, bl])
-    (hkw : ∀ blk, m[bk]? = some blk → blk.writable = true) (hne : bk ≠ bl) (hd : ∀ x, x ∈ gl → x.1 ≠ bk ∧ x.1 ≠ bl)
+    (hkw : ∀ blk, m[bk]? = some blk → blk.writable = true) (hne : gl ≠ [] → bk ≠ bl) (hd : ∀ x, x ∈ gl → x.1 ≠ bk ∧ x.1 ≠ bl)
     (hsmall : (gl.length : Int) + 2 < 2147483648) (hline : (e.line : Int) < 18446744073709551616) (fuel : Nat) (hf : gl.length + 1 < fuel)
     (hl0 : loc[0]? = some (.ptr bk 0)) (hl1 : loc[1]? = some (.ptr cell 0)) (ht : t < loc.length) (ht1 : t ≠ 1)
     (hsrc : evalE srcE { mem := m, loc := loc } = .ok (.ptr bs (os : Int), { mem := m, loc := loc }))
@@ -2086,7 +2183,7 @@ theorem fe_append_exec (m : Mem) (bk bl cell fa bs os : Nat) (gl : List (Nat × 
       GlMem m1 bk bl' gl' ∧ gl'.map (·.2) = Econf.addGroup (gl.map (·.2)) e.group ∧
       (∀ b, b < m.length → b ≠ bk → b ≠ bl → m1[b]? = m[b]?) ∧
       m' = m1.set fa { ablk with slots := ablk.slots.take (7 * a) ++ ws ++ ablk.slots.drop (7 * a + 7) } ∧
-      (bl' = bl ∨ m.length ≤ bl') ∧ (∀ blk, m1[bk]? = some blk → blk.writable = true) ∧ bk ≠ bl' ∧
+      (bl' = bl ∨ m.length ≤ bl') ∧ (∀ kb blk, m[bk]? = some kb → m1[bk]? = some blk → KfKeep kb blk) ∧ (gl' ≠ [] → bk ≠ bl') ∧
       (∀ x, x ∈ gl' → x.1 ≠ bk ∧ x.1 ≠ bl') ∧ gl'.length ≤ gl.length + 1 ∧
       (∀ bv, m1.loadSlot m.length 2 = .ok (.ptr bv 0) → m.length < bv ∧ m1.loadSlot m.length 0 ≠ .ok (.ptr bv 0) ∧
         m1.loadSlot m.length 1 ≠ .ok (.ptr bv 0) ∧ m1.loadSlot m.length 3 ≠ .ok (.ptr bv 0) ∧ m1.loadSlot m.length 4 ≠ .ok (.ptr bv 0) ∧
@@ -2200,7 +2297,7 @@ theorem EntMem.moved {m1 : Mem} {L fa a : Nat} {e : Econf.Entry} {ws : List Val}
 theorem C_fe_append (m : Mem) (bk bl cell fa bs os : Nat) (gl : List (Nat × List UInt8)) (e : Econf.Entry)
     (loc loc2 : List Val) (srcE idxE : Expr) (t a cap : Nat)
     (hG : GlMem m bk bl gl) (hE : EntMem m bs os e [bk, bl])
-    (hkw : ∀ blk, m[bk]? = some blk → blk.writable = true) (hne : bk ≠ bl) (hd : ∀ x, x ∈ gl → x.1 ≠ bk ∧ x.1 ≠ bl)
+    (hkw : ∀ blk, m[bk]? = some blk → blk.writable = true) (hne : gl ≠ [] → bk ≠ bl) (hd : ∀ x, x ∈ gl → x.1 ≠ bk ∧ x.1 ≠ bl)
     (hsmall : (gl.length : Int) + 2 < 2147483648) (hline : (e.line : Int) < 18446744073709551616) (fuel : Nat) (hf : gl.length + 1 < fuel)
     (hl0 : loc[0]? = some (.ptr bk 0)) (hl1 : loc[1]? = some (.ptr cell 0)) (ht : t < loc.length) (ht1 : t ≠ 1)
     (hsrc : evalE srcE { mem := m, loc := loc } = .ok (.ptr bs (os : Int), { mem := m, loc := loc }))
@@ -2218,7 +2315,7 @@ theorem C_fe_append (m : Mem) (bk bl cell fa bs os : Nat) (gl : List (Nat × Lis
       (∃ ablk', m'[fa]? = some ablk' ∧ ablk'.live = true ∧ ablk'.writable = true ∧ ablk'.cells = [] ∧ ablk'.slots.length = 7 * cap ∧
         ∀ i, (i < 7 * a ∨ 7 * a + 7 ≤ i) → ablk'.slots[i]? = ablk.slots[i]?) ∧
       m.length ≤ m'.length ∧
-      (bl' = bl ∨ m.length ≤ bl') ∧ (∀ blk, m'[bk]? = some blk → blk.writable = true) ∧ bk ≠ bl' ∧
+      (bl' = bl ∨ m.length ≤ bl') ∧ (∀ kb blk, m[bk]? = some kb → m'[bk]? = some blk → KfKeep kb blk) ∧ (gl' ≠ [] → bk ≠ bl') ∧
       (∀ x, x ∈ gl' → x.1 ≠ bk ∧ x.1 ≠ bl') ∧ gl'.length ≤ gl.length + 1 ∧
       -- the value of the new element has a block of its own, made in this step
       (∀ bv, m'.loadSlot fa (((7 * a : Nat) : Int) + 2) = .ok (.ptr bv 0) → m.length < bv ∧
@@ -2248,10 +2345,9 @@ theorem C_fe_append (m : Mem) (bk bl cell fa bs os : Nat) (gl : List (Nat × Lis
   have hG' : GlMem m' bk bl' gl' := hG1.mono fa (fun b _ hb => hother b hb) (Ne.symm hane.1) hblfa (by
     intro x hx hh
     obtain ⟨i, hi, rfl⟩ := List.getElem_of_mem hx
-    obtain ⟨gb, a1, a2, a3, a4⟩ := hG1.arr
-    exact noStr _ (hh ▸ (a4 i hi).2))
+    exact noStr _ (hh ▸ hG1.str i hi))
   refine ⟨m', bl', gl', hex, hmoved, hG', hnames, fun b hb h1 h2 h3 => by rw [hother b h3, hfr b hb h1 h2], ?_, by rw [hm']; simp; omega,
-    hblor, fun blk hb => hkw1 blk (by rw [← hother bk (Ne.symm hane.1)]; exact hb), hne1, hd1, hgll, ?_⟩
+    hblor, fun kb blk hk hb => hkw1 kb blk hk (by rw [← hother bk (Ne.symm hane.1)]; exact hb), hne1, hd1, hgll, ?_⟩
   rotate_left
   · -- a word of the new element is the word of the copy it came from
     have htk : (ablk.slots.take (7 * a)).length = 7 * a := by simp; omega
